@@ -75,8 +75,8 @@ def run(ctx):
     per = {}
     extra = []
     for s in scen:      # the other sub-commands: a fixed number of runs each (their arguments are drawn afresh per run)
-        if s["sub"] not in SEARCH and per.get(s["sub"], 0) < (30 if q else 400):
-            per[s["sub"]] = per.get(s["sub"], 0) + 1
+        if s["sub"] not in SEARCH and per.get((s["sub"], s["args"] == "hostile"), 0) < (25 if q else 300):
+            per[(s["sub"], s["args"] == "hostile")] = per.get((s["sub"], s["args"] == "hostile"), 0) + 1
             extra.append(s)
     scen = keep + extra + scen[:(600 if q else 25000)]
     sf = os.path.join(ctx.work, "cli-run.jsonl")
